@@ -519,8 +519,8 @@ def r4_saved_position(ctx, rule):
                 elif txt in ("self.mode != 'priority_queue'", "'priority_queue' != self.mode"):
                     if pol:
                         ok = False
-                else:
-                    ctx.unk(rule, sq, 'the queue position is saved under a condition this rule does not know: ' + txt[:60])
+                elif 'self.mode' in txt:
+                    ctx.unk(rule, sq, 'the queue position is saved under a test on the mode this rule does not know: ' + txt[:60])
                     return
             if not ok:
                 ctx.bad(rule, sq, 'the queue position is saved only when the mode is NOT priority_queue',
